@@ -109,6 +109,11 @@ func genJSONHello(r *Rng, i int, tier string) string {
 	if i < len(parrotIDs) {
 		return fmt.Sprintf("id=%s rseed=%d", idName(parrotIDs[i]), r.U64()%1000000)
 	}
+	if i < 2*len(parrotIDs) {
+		// the same hellos spelled with the alias names the dictionaries carry (delegated_credential, …)
+		return fmt.Sprintf("id=%s rseed=%d alias=1", idName(parrotIDs[i-len(parrotIDs)]), r.U64()%1000000)
+	}
+	alias := i%3 == 0
 	suites := pickSome(r, dictValues("CipherSuite"), 1+r.Intn(14))
 	if r.Intn(3) == 0 {
 		suites = append([]uint64{0x0a0a}, suites...)
@@ -124,7 +129,13 @@ func genJSONHello(r *Rng, i int, tier string) string {
 		}
 		return u64s(g)
 	}
-	sigs := func() string { return u64s(pickSome(r, dictValues("SignatureScheme"), 1+r.Intn(9))) }
+	sigs := func() string {
+		ss := pickSome(r, dictValues("SignatureScheme"), 1+r.Intn(9))
+		if alias && r.Intn(2) == 0 {
+			ss = append(ss, 0x0202) // only an alias name ("Reserved for backward compatibility") spells it
+		}
+		return u64s(ss)
+	}
 	protos := func() string {
 		return hexList(bytesList(Pick(r, [][]string{{"h2", "http/1.1"}, {"h2"}, {"http/1.1"}, {"h3", "h2", "spdy/3.1"}})))
 	}
@@ -196,6 +207,16 @@ func genJSONHello(r *Rng, i int, tier string) string {
 	}
 	if r.Intn(3) == 0 {
 		exts = append(exts, fmt.Sprintf("padding|%d|%d", Pick(r, []int{0, 0, 17, 120}), 1))
+	}
+	if alias {
+		has := false
+		for _, e := range exts {
+			has = has || strings.HasPrefix(e, "delegated|")
+		}
+		if !has {
+			exts = append([]string{"delegated|" + sigs()}, exts...)
+		}
+		return fmt.Sprintf("suites=%s comps=%s exts=%s rseed=%d alias=1", u64s(suites), comps, strings.Join(exts, ";"), r.U64()%1000000)
 	}
 	return fmt.Sprintf("suites=%s comps=%s exts=%s rseed=%d", u64s(suites), comps, strings.Join(exts, ";"), r.U64()%1000000)
 }
@@ -407,12 +428,24 @@ func nameOf(table string, v uint64, grease bool) string {
 	if grease && unG(uint16(v)) == 0x0a0a && v <= 0xffff {
 		return "GREASE"
 	}
+	if jsonAliasMode {
+		// spell the code point by the alias name the registry documents for it (hand-written expectation,
+		// vtab.ExpectedAliases — NOT read back from the name-indexed map, which is what is under test)
+		if a, ok := vtab.AliasSpelling(table, v); ok {
+			if _, present := vtab.DictByName(table).LookupName(a); present { // a dropped alias is not an error
+				return a
+			}
+		}
+	}
 	nm, ok := vtab.DictByName(table).LookupValue(v)
 	if !ok {
 		panic(unrep{fmt.Sprintf("%s:%d", table, v)})
 	}
 	return nm
 }
+
+// jsonAliasMode: render with alias spellings where the expectation table has one (input alias=1).
+var jsonAliasMode bool
 
 func namesOf(table string, vs []uint64, grease bool) []string {
 	out := []string{}
@@ -715,7 +748,9 @@ func execJSONHello(in KV) string {
 		return "out=rawerr msg=" + sanitize(err.Error())
 	}
 	rshape := specShape("r", rspec)
+	jsonAliasMode = in["alias"] == "1"
 	doc, skeleton, why := renderJSON(rspec, hello)
+	jsonAliasMode = false
 	if why != "" {
 		return "out=unrep why=" + sanitize(why) + " " + rshape
 	}
